@@ -22,6 +22,29 @@ NEEDS = {
  "C19-b": "collect_exactly over an iterable parser that fails HARD after yielding >= 1 item (repeated().exactly(n) / at_least(n) / separated_by().at_least(n) with too few items): the early `?` return skips the cleanup of the collected prefix",
  "C20-a": "recover_with(skip_then_retry_until(..)) around a parser with its own inner recovery, on an input where after skipping >= 1 token the retry succeeds only by emitting errors: that arm rewinds to before the skip, so the loop never advances (hang)",
  "C20-b": "feature pratt, a few thousand consecutive prefix operators: the prefix recursion lost its stack-growth wrapper (stack overflow / abort)",
+ # ---- round 2 (second sub-agent round: corners -- one input kind / error type / check mode / IterParser impls / configuration)
+ "C01-c": "or_not() used as an ITEM SOURCE (collect / count / folds / item-source then) whose child fails after consuming >= 1 token: the IterParser impl lost its save/rewind (the Parser impl is untouched)",
+ "C01-d": "then() joining two item sources where the RIGHT one touches the input in make_iter (p.into_iter(), ignore_with_ctx, then_with_ctx): both sources are set up before the left one has run, so sub-parsers no longer run left to right",
+ "C02-c": "separated_by with allow_leading() AND at_least(k>=1) / exactly on an input that does not start with the separator: the optional leading separator became mandatory below the lower bound",
+ "C02-d": "repeated().configure(..) used directly as a parser (to_slice / ignored / then_ignore / as a separator, not collected): the Parser<()> impl of IterConfigure iterates the UNCONFIGURED repetition, so run-time bounds are ignored",
+ "C03-c": "or_not() as an item source whose child fails after consuming: the consumed prefix stays consumed without an error, so an accepted input extended by a token is still accepted (same site as C01-c, written independently)",
+ "C03-d": "a zero-sized error type (EmptyErr / extra::Default / a unit struct) and a parse that succeeds only through recovery: InputRef::emit returns early for zero-sized errors, so the result has an output and no error",
+ "C04-c": "an unbounded repeated() used WITHOUT collect whose item emits a non-fatal error (validate / recover_with) and then fails in the last iteration: the fast path rewinds the position only, the abandoned emission survives (the collect path is untouched)",
+ "C04-d": "into_iter() consumed by something whose acceptance depends on the item count (collect_exactly::<[_; N>0]>) and run in CHECK mode (check(), ignored, to_slice, ignore_then): no items are yielded in check mode",
+ "C05-c": "validate() that emits, placed under a combinator that discards its child's output (ignored, to, to_slice, left of ignore_then, a separator, uncollected repeated, check()): validator and emissions moved inside M::bind, so nothing is emitted in check mode",
+ "C05-d": "a user Inspector state and a .rewind() whose parser SUCCEEDS: the position-only rewind no longer calls on_rewind (errors, outputs and cursor unchanged; and_is hides it)",
+ "C06-c": "map_err around a parser that SUCCEEDS while leaving a pending error (inner or_not / repeated / choice), an earlier abandoned alternative that failed further in, then a failure before that point: the sheltered pending error is restored only if the inner parser left none",
+ "C06-d": "error type Cheap only: two failures merged at one position whose spans differ (a multi-token filter / try_map / custom error vs a single-token primitive arriving later through add_alt): Cheap keeps the LAST span, Simple and Rich the first",
+ "C07-c": "feature pratt, operators passed as a Vec of boxed operators, an infix fold closure reading e.span() / e.slice(): the span starts at the operator instead of the left operand (tuple tables, prefix / postfix unaffected)",
+ "C07-d": "an Input::map wrapper over &[(T, S)] whose last consumed token came through any_ref / select_ref! (BorrowInput::next_ref): the token's end offset is not recorded, the span ends at a stale offset",
+ "C08-c": "skip_until recovery reached in CHECK mode (check(), or under to_slice / ignored / ignore_then / then_ignore): the emit moved inside M::bind, so input is skipped and nothing is reported",
+ "C08-d": "skip_then_retry_until with a MULTI-TOKEN until (just(\"--\"), a keyword) and a proper prefix of it in the input at a probed position: the failed until probe is no longer rewound, skip steps start from the wrong place",
+ "C15-c": "a repetition whose bounds come from configure / try_configure, bounds that allow one more attempt after the last good item, and an item that emits a non-fatal error and then fails: the abandoned attempt is undone with a position-only rewind",
+ "C15-d": "try_configure returning Ok(cfg) with the configured repetition used directly as a parser (to_slice / ignored / then / separator) rather than collected: Parser::go iterates the unconfigured inner repetition",
+ "C17-c": "an as_context label that fails further in (not at its first token), abandoned under or_not / repeated / an earlier choice branch, then a plain primitive failing at a LATER position: Rich::replace_expected_found no longer clears the stale context",
+ "C17-d": "map_err around a parser that succeeds leaving a pending error, an earlier alternative with a pending error at exactly the same position, the two with different spans (keyword / try_map / custom vs primitive): merged the wrong way round, the identity map_err moves the span",
+ "C18-c": "a parser that consumes through InputRef::skip() (text::newline's CR / CRLF branch, custom / extension parsers calling skip()): skip advances without on_token",
+ "C18-d": "Parser::padded() followed by a non-whitespace token (skip_while): the first token after the padding is fed to the inspector twice (read one too many, cursor reset without on_rewind)",
 }
 res = {}
 for path in sys.argv[1:]:
